@@ -203,3 +203,35 @@ func (e *execState) joinedBlock(bo *blockObs, txs [][]byte) {
 		res.Stats.Probes["lockstep_blocks"]++
 	}
 }
+
+// finalExportValidate: at the end of every history of the genesis profile the state is exported once more
+// and must pass the module's own validation (states that take a whole history to reach - an auction that
+// used all of its extended rounds, hundreds of bids - are rarely hit by the export moments drawn at random).
+func (e *execState) finalExportValidate(last int) {
+	n := e.node
+	res := e.res
+	defer func() {
+		if r := recover(); r != nil {
+			res.addV("C15", "export.panic", "export", fmt.Sprintf("export at the end of the history panicked: %v", r), last, -1)
+		}
+	}()
+	ex, err := n.App.ExportAppStateAndValidators(false, nil, nil)
+	if err != nil {
+		res.addV("C15", "export.error", "export", "export at the end of the history failed: "+err.Error(), last, -1)
+		return
+	}
+	var all map[string]json.RawMessage
+	if err := json.Unmarshal(ex.AppState, &all); err != nil {
+		res.HarnessErr = "export json: " + err.Error()
+		return
+	}
+	var gs types.GenesisState
+	if err := n.App.AppCodec().UnmarshalJSON(all[types.ModuleName], &gs); err != nil {
+		res.addV("C15", "export.unmarshal", "export", "exported genesis does not unmarshal: "+err.Error(), last, -1)
+		return
+	}
+	if err := gs.Validate(); err != nil {
+		res.addV("C15", "export.validate", classifyGenesisErr(err.Error()), fmt.Sprintf("the genesis exported at the end of the history (%d auctions, %d allowed bidders, %d bids, %d instalments) fails the module's validation: %v", len(gs.AuctionList), len(gs.AllowedBidderList), len(gs.BidList), len(gs.VestingQueueList), err), last, -1)
+	}
+	res.Stats.Probes["final_export_validated"]++
+}
